@@ -4,6 +4,7 @@ import (
 	"encoding/json"
 	"fmt"
 	"os"
+	"runtime"
 	"sort"
 	"strings"
 	"testing"
@@ -115,8 +116,24 @@ func TestSim(t *testing.T) {
 	}
 }
 
+// runIn executes one run as a subtest under a wall-clock watchdog: a run that
+// does not finish (a goroutine blocked in a way the bubble does not see as
+// durable, e.g. on a library mutex) gets all stacks dumped and the worker
+// exits; the driver reports that as harness trouble (exit 2), never as a violation.
 func runIn(t *testing.T, name string, f func(t *testing.T)) {
+	done := make(chan struct{})
+	go func() {
+		select {
+		case <-done:
+		case <-time.After(60 * time.Second):
+			buf := make([]byte, 1<<20)
+			n := runtime.Stack(buf, true)
+			fmt.Fprintf(os.Stderr, "verif worker: run %s exceeded 60s of wall clock; goroutines:\n%s\n", name, buf[:n])
+			os.Exit(3)
+		}
+	}()
 	t.Run(name, f)
+	close(done)
 }
 
 func batch(t *testing.T, spec *Spec) {
@@ -349,13 +366,25 @@ func minimize(t *testing.T, spec *Spec) {
 	rf, prop, sc := loadReplay(t, spec.Replay)
 	deadline := time.Now().Add(time.Duration(spec.BudgetMs) * time.Millisecond)
 	n := 0
-	run := func(sc props.Scenario, seed uint64, tape []uint32, replay bool) props.RunResult {
+	run1 := func(sc props.Scenario, seed uint64, tape []uint32, replay bool) props.RunResult {
 		var res props.RunResult
 		n++
 		runIn(t, fmt.Sprintf("m%d", n), func(t *testing.T) {
 			props.RunOne(t, rf.Property, seed, sc, props.RunOpts{Tape: tape, Replay: replay}, &res)
 		})
 		collectRaces(&res)
+		return res
+	}
+	// a race report is not a pure function of the schedule (see the driver): a
+	// candidate only counts if it shows the race twice in a row
+	run := func(sc props.Scenario, seed uint64, tape []uint32, replay bool) props.RunResult {
+		res := run1(sc, seed, tape, replay)
+		if rf.Violation.Clause == "data-race" && sameViolation(res.Violations, rf.Violation) {
+			again := run1(sc, seed, res.Tape, true)
+			if !sameViolation(again.Violations, rf.Violation) {
+				res.Violations = nil
+			}
+		}
 		return res
 	}
 	best := sc
